@@ -446,11 +446,14 @@ pub fn random_program(rng: &mut Rng, stack: bool) -> Vec<Item> {
     }
     if rng.chance(2, 3) {
         let at = if rng.chance(1, 2) { 0 } else { rng.below(ast.len() as u64 + 1) as usize };
-        let o = match rng.below(5) {
+        let o = match rng.below(7) {
             0 => 0x3000,
             1 => 0,
             2 => 0x8000,
             3 => 0xFD00,
+            // images that straddle the sign boundary of 16-bit addresses / the end of user space
+            4 => 0x8000 - rng.range(1, n as i64 + 1),
+            5 => 0xFE00 - rng.range(1, n as i64 + 1),
             _ => rng.word() as i64 % 0xF000,
         };
         ast.insert(at, orig(o));
